@@ -1,12 +1,12 @@
 From Coq Require Import String.
 From Gemato Require Import Py.PyLit.
-From Gemato Require Import Py.PyStr Exec.Sx Exec.Run.
+From Gemato Require Import Py.PyStr Exec.Sx Exec.Run Exec.Tree.
 
 (* one request: (cmd arg ...) *)
 Definition run (x : sx) : sx :=
   match x with
   | SL (SS c :: args) =>
-      match run_text c args with
+      match (if ustr_eqb c (u "tree") then run_tree args else run_text c args) with
       | Some r => r
       | None => SL [sym "bad-command"; SS c]
       end
